@@ -36,11 +36,11 @@ MULTI = {"MacroF1", "MacroJaccard", "MacroPrecision", "MacroRecall", "MicroF1", 
 def pairs_for(name):
     """three (y_true, prediction dict) pairs per metric family"""
     if name in REGRESSION:
-        return {"p1": (2.0, {"output": 3.5}), "p2": (1.0, {"output": 0.25}), "p3": (4.0, {"output": 4.0})}
+        return {"p1": (2.0, {"output": 3.5}), "p2": (2.0, {"output": 0.25}), "p3": (4.0, {"output": 4.0})}
     if name in PROBA:
         return {"p1": (True, {"output": 0.8}), "p2": (False, {"output": 0.6}), "p3": (True, {"output": 0.3})}
     if name in DICT:
-        return {"p1": (0, {0: 0.7, 1: 0.2, 2: 0.1}), "p2": (2, {0: 0.3, 1: 0.3, 2: 0.4}), "p3": (1, {0: 0.5, 1: 0.25, 2: 0.25})}
+        return {"p1": (0, {0: 0.7, 1: 0.2, 2: 0.1}), "p2": (0, {0: 0.3, 1: 0.3, 2: 0.4}), "p3": (1, {0: 0.5, 1: 0.25, 2: 0.25})}
     if name in MULTI:
         return {"p1": (0, {"output": 0}), "p2": (2, {"output": 1}), "p3": (1, {"output": 1})}
     return {"p1": (True, {"output": True}), "p2": (False, {"output": True}), "p3": (True, {"output": False})}
@@ -87,7 +87,7 @@ def single_value(name, pair):
         return ("raises", type(e).__name__)
 
 
-def replay_history(name, hist, nwrappers):
+def replay_history(name, hist, nwrappers, reuse_buffer=False):
     """hist: list of (wrapper index, pair name).  Returns list of (clause, detail)."""
     import river.metrics as M
     from ixai.utils.validators.loss import validate_loss_function
@@ -102,8 +102,14 @@ def replay_history(name, hist, nwrappers):
             return probs
     pairs = pairs_for(name)
     sign = -1.0 if getattr(metric, "bigger_is_better", False) else 1.0
+    buf = {}
     for i, (w, pn) in enumerate(hist):
         y, pred = pairs[pn]
+        if reuse_buffer:
+            # a caller may reuse one prediction dict object and overwrite its contents between calls
+            buf.clear()
+            buf.update(pred)
+            pred = buf
         pred_copy = copy.deepcopy(pred)
         want = single_value(name, (y, pred))
         try:
